@@ -49,7 +49,18 @@ pub fn tree_case(em: &mut Emitter, mode: u8, d: &Dyn) {
         match &w { Some(v) => { obs = obs.n(R_OK).bytes(v); } None => { obs = obs.n(R_PANIC); } }
         let exp = ref_encode(d, mode);
         let awkward = match (&w, &exp) { (Some(v), Some(_)) => awkward_targets(v, 1 + code_len % 4, &|t| { let mut t = t; d.write_encoded(modeof(mode), &mut t) }), _ => None };
+        // the same encoder through the Captured builders: from_values, builder + extend (twice), into_builder + extend
+        let built = match (&w, &exp) { (Some(v), Some(_)) => catch(|| {
+            use bcder::Captured;
+            let one = Captured::from_values(modeof(mode), d);
+            let mut b = Captured::builder(modeof(mode)); b.extend(d); b.extend(d); let two = b.freeze();
+            let mut b3 = two.clone().into_builder(); b3.extend(d); let three = b3.freeze();
+            let vv: Vec<u8> = [v.as_slice(), v.as_slice()].concat(); let vvv: Vec<u8> = [v.as_slice(), v.as_slice(), v.as_slice()].concat();
+            one.as_slice() == v.as_slice() && two.as_slice() == vv.as_slice() && three.as_slice() == vvv.as_slice()
+              && Captured::empty(modeof(mode)).as_slice().is_empty() && one.len() == v.len()
+        }), _ => Some(true) };
         let orc = match (l, &w, &exp) {
+            (Some(_), Some(_), Some(_)) if built != Some(true) => Oracle::Fail("captured-builder-output-differs-from-the-encoder-output".into()),
             (Some(_), Some(_), Some(_)) if awkward.is_some() => Oracle::Fail(awkward.unwrap().into()),
             (Some(n), Some(v), Some(e)) => if n != v.len() { Oracle::Fail("announced-length-differs-from-written".into()) } else if v != e { Oracle::Fail("written-octets-differ-from-reference".into()) } else { Oracle::Pass },
             (None, None, None) => Oracle::Pass,
